@@ -286,6 +286,16 @@ Definition o2 (k : Z) (t : String.string) : @value FloatNum :=
 Arguments o2 k t%string_scope.
 Definition by_k : @arg FloatNum := ARef (EIdent false (str "k")).
 Definition arr3 : @expr FloatNum := ELit (VArr [o2 2 "a"; o2 1 "b"; o2 2 "c"; o2 1 "d"]).
+(* the order hypothesis is satisfiable: exact integers under < (binary64's < on
+   finite numbers is such an order by IEEE 754; that is not proved for PrimFloat) *)
+Definition ZNum9 : NumOps := {|
+  num := Z; num_eqb := Z.eqb; num_ltb := Z.ltb; num_leb := Z.leb; num_add := Z.add; num_div := Z.div;
+  num_of_Z := fun z => z; num_abs := Z.abs; num_ceil := fun z => z; num_floor := fun z => z;
+  num_finite := fun _ => true; num_same := Z.eqb;
+  num_parse_json := fun _ => None; num_parse_go := fun _ => None; num_print := fun _ => nil |}.
+Example C09_order_satisfiable : @NumOrder ZNum9.
+Proof. constructor; cbn; intros; lia. Qed.
+
 Example C09_example :
   (same_outcome (search_compiled (fun m => m) (compile (ECall (str "sort_by") [AExpr arr3; by_k])) VNull)
                 (Ok (VArr [o2 1 "b"; o2 1 "d"; o2 2 "a"; o2 2 "c"])) &&
